@@ -4,6 +4,7 @@ import re
 import subprocess
 import time
 import resource
+import signal
 
 VERIF = os.path.dirname(os.path.dirname(os.path.abspath(__file__)))
 STUBS = os.path.join(VERIF, 'stubs')
@@ -54,6 +55,33 @@ def _limits():
     resource.setrlimit(resource.RLIMIT_AS, (MEM_KB * 1024, MEM_KB * 1024))
 
 
+def _limits_session():
+    os.setsid()
+    _limits()
+
+
+def run_cmd(cmd, env, timeout):
+    """run with a timeout that kills the whole process group (cbmc AND its solver child)"""
+    p = subprocess.Popen(cmd, stdout=subprocess.PIPE, stderr=subprocess.STDOUT, env=env, preexec_fn=_limits_session)
+    try:
+        out, _ = p.communicate(timeout=timeout)
+    except subprocess.TimeoutExpired:
+        try:
+            os.killpg(p.pid, signal.SIGKILL)
+        except ProcessLookupError:
+            pass
+        out, _ = p.communicate()
+        e = subprocess.TimeoutExpired(cmd, timeout)
+        e.stdout = out
+        raise e
+
+    class R:
+        pass
+    r = R()
+    r.stdout, r.returncode = out, p.returncode
+    return r
+
+
 def run_job(job, trace_on_fail=True):
     r = JobResult(job)
     env = dict(os.environ)
@@ -62,8 +90,7 @@ def run_job(job, trace_on_fail=True):
     r.cmd = ' '.join(cmd)
     t0 = time.time()
     try:
-        p = subprocess.run(cmd, stdout=subprocess.PIPE, stderr=subprocess.STDOUT, env=env,
-                           timeout=job.timeout, preexec_fn=_limits)
+        p = run_cmd(cmd, env, job.timeout)
         out = p.stdout.decode(errors='replace')
         rc = p.returncode
     except subprocess.TimeoutExpired as e:
@@ -79,8 +106,7 @@ def run_job(job, trace_on_fail=True):
     if r.status == 'failed' and trace_on_fail:
         try:
             # counterexamples: unsliced formula (so that all inputs appear), only the refuted obligations
-            p = subprocess.run(cbmc_cmd(job, trace=True, props=[f[0] for f in r.failed[:4]]), stdout=subprocess.PIPE,
-                               stderr=subprocess.STDOUT, env=env, timeout=job.timeout * 2, preexec_fn=_limits)
+            p = run_cmd(cbmc_cmd(job, trace=True, props=[f[0] for f in r.failed[:4]]), env, job.timeout * 2)
             r.trace = p.stdout.decode(errors='replace')
         except subprocess.TimeoutExpired:
             r.trace = ''
@@ -89,8 +115,7 @@ def run_job(job, trace_on_fail=True):
 
 def split_run(job, r, env, t0):
     """fallback after a timeout: one solver query per obligation, each on its own formula slice"""
-    p = subprocess.run(cbmc_cmd(job) + ['--show-properties'], stdout=subprocess.PIPE, stderr=subprocess.STDOUT,
-                       env=env, timeout=120)
+    p = run_cmd(cbmc_cmd(job) + ['--show-properties'], env, 120)
     ids = re.findall(r'^Property ([\w.$-]+):', p.stdout.decode(errors='replace'), re.M)
     if not ids:
         r.seconds = time.time() - t0
@@ -99,8 +124,7 @@ def split_run(job, r, env, t0):
     outs = []
     for pid in ids:
         try:
-            q = subprocess.run(cbmc_cmd(job) + ['--property', pid], stdout=subprocess.PIPE, stderr=subprocess.STDOUT,
-                               env=env, timeout=max(job.timeout, 150), preexec_fn=_limits)
+            q = run_cmd(cbmc_cmd(job) + ['--property', pid], env, max(job.timeout, 150))
         except subprocess.TimeoutExpired:
             r.seconds = time.time() - t0
             r.reason = 'timeout after %ds, and obligation %s alone also exceeds %ds' % (job.timeout, pid, job.timeout)
